@@ -110,6 +110,19 @@ func quasiBackSubstitution(h Matrix, b, x Vector, k int) {
       x.At(i).Sub(x.ConstAt(i), t)
     }
   }
+  // smallest admissible pivot
+  small := 0.0
+  for i := 0; i < k; i++ {
+    for j := i; j < k; j++ {
+      if v := math.Abs(h.ConstAt(i,j).GetFloat64()); v > small {
+        small = v
+      }
+    }
+  }
+  if small == 0.0 {
+    small = 1.0
+  }
+  small *= 2.22e-16
   for i := k-1; i >= 0; i-- {
     if i > 0 && h.ConstAt(i,i-1).GetFloat64() != 0.0 {
       residual(i  , i+1)
@@ -130,7 +143,13 @@ func quasiBackSubstitution(h Matrix, b, x Vector, k int) {
       i--
     } else {
       residual(i, i+1)
-      x.At(i).Div(x.ConstAt(i), h.ConstAt(i,i))
+      if math.Abs(h.ConstAt(i,i).GetFloat64()) < small {
+        // repeated eigenvalue: the system is singular, perturb
+        // the pivot (as LAPACK's trevc does)
+        x.At(i).Div(x.ConstAt(i), ConstFloat64(small))
+      } else {
+        x.At(i).Div(x.ConstAt(i), h.ConstAt(i,i))
+      }
     }
   }
 }
@@ -208,6 +227,10 @@ func sortEigensystem(eigenvectors Matrix, eigenvalues Vector) {
 func eigensystem(a Matrix, inSitu *InSitu, computeEigenvectors, symmetric bool, args ...interface{}) (Vector, Matrix, error) {
   eigenvalues  := inSitu.Eigenvalues
   eigenvectors := inSitu.Eigenvectors
+  if !computeEigenvectors {
+    // a buffer of the caller is neither used nor returned
+    eigenvectors = nil
+  }
 
   n, _ := a.Dims()
 
@@ -265,9 +288,11 @@ func Run(a Matrix, args_ ...interface{}) (Vector, Matrix, error) {
   }
   if inSitu.Eigenvectors == nil && computeEigenvectors {
     inSitu.Eigenvectors = NullDenseMatrix(t, n, n)
-    if symmetric {
-      inSitu.QrAlgorithm.U = inSitu.Eigenvectors
-    }
+  }
+  if symmetric && computeEigenvectors {
+    // the symmetric qr algorithm accumulates the
+    // eigenvectors directly (also in a buffer of the caller)
+    inSitu.QrAlgorithm.U = inSitu.Eigenvectors
   }
   return eigensystem(a, inSitu, computeEigenvectors, symmetric, args...)
 }
